@@ -19,6 +19,7 @@ import (
 	"regexp"
 	"runtime"
 	"strconv"
+	"sync/atomic"
 	"time"
 
 	"github.com/iotaledger/hive.go/ds"
@@ -176,7 +177,7 @@ func (g *goList) Value(e elem) int { return gi(ge(e).Value) }
 
 var (
 	hangTimeout  = 2 * time.Second
-	hangsSeen    = 0 // confirmed (full timeout) hangs in this process
+	hangsSeen    atomic.Int32 // confirmed (full timeout) hangs in this process
 	goroutineHdr = regexp.MustCompile(`(?m)^goroutine (\d+) \[([^\]]+)\]:`)
 )
 
@@ -206,11 +207,13 @@ func lockParked(id int) bool {
 	return false
 }
 
-// guarded runs f in its own goroutine: "ok", "PANIC" (f panicked) or "HANG" (f did not return).
-// The harness is single-threaded, so a call parked on a mutex can never be released. The first
-// hang of a process is waited out for the full 2 s; once one is confirmed, later calls that are
-// seen parked on a mutex for 10 consecutive samples (>= 10 ms) are reported without the full wait
-// (otherwise a re-introduced self-deadlock would cost 2 s per edge of the transition system).
+// guarded runs f in its own goroutine: "ok", "PANIC" (f panicked) or "HANG" (f does not return).
+// A call is reported as hanging only when its goroutine is parked on a mutex (the harness drives
+// each object from one goroutine, so nobody can ever release it) - never because the machine is
+// slow: after the 2 s stall bound the goroutine's state is inspected, a goroutine that is still
+// runnable is waited for (up to a minute, then it is an endless loop). Once one hang is confirmed,
+// later calls seen parked on a mutex for 10 consecutive samples (>= 10 ms) are reported without
+// the full wait (a self-deadlock hangs at every state of the transition system).
 func guarded(f func()) string {
 	done := make(chan string, 1)
 	gid := make(chan int, 1)
@@ -225,34 +228,35 @@ func guarded(f func()) string {
 		done <- "ok"
 	}()
 	id := <-gid
-	deadline := time.After(hangTimeout)
-	if hangsSeen == 0 {
-		select {
-		case x := <-done:
-			return x
-		case <-deadline:
-			hangsSeen++
-			return "HANG"
+	start := time.Now()
+	if hangsSeen.Load() > 0 {
+		parked := 0
+		tick := time.NewTicker(time.Millisecond)
+		defer tick.Stop()
+		for time.Since(start) < hangTimeout {
+			select {
+			case x := <-done:
+				return x
+			case <-tick.C:
+				if lockParked(id) {
+					parked++
+				} else {
+					parked = 0
+				}
+				if parked >= 10 {
+					hangsSeen.Add(1)
+					return "HANG"
+				}
+			}
 		}
 	}
-	parked := 0
-	tick := time.NewTicker(time.Millisecond)
-	defer tick.Stop()
 	for {
 		select {
 		case x := <-done:
 			return x
-		case <-deadline:
-			hangsSeen++
-			return "HANG"
-		case <-tick.C:
-			if lockParked(id) {
-				parked++
-			} else {
-				parked = 0
-			}
-			if parked >= 10 {
-				hangsSeen++
+		case <-time.After(hangTimeout):
+			if lockParked(id) || time.Since(start) > time.Minute {
+				hangsSeen.Add(1)
 				return "HANG"
 			}
 		}
